@@ -74,8 +74,15 @@ def run_history(ctx, g, rng, length):
     def key(t):
         return (t[0], t[1], json.dumps(env.lab_sx(env.labels[t[2]])))
 
+    sides = []          # (description, CFG built from this one at some moment, its edges then): later operations here must not show there
+
     def observe(full):
         nonlocal problems
+        for desc, side, snap in sides:
+            now = sorted(env.canon_edge(e) for e in side)
+            if now != snap or side is cfg:
+                problems.append("%s %s: it held %s when it was built and holds %s now" % (desc, "IS this IR's CFG object" if side is cfg else "follows later operations on this one", snap, now))
+                break
         # implementation observations
         got_edges = sorted(env.canon_edge(e) for e in cfg)
         want = sorted([k[0], k[1], json.loads(k[2])] for k in shadow)
@@ -169,6 +176,7 @@ def run_history(ctx, g, rng, length):
                     env.ir = ir2
                     cfg = ir2.cfg
                     env.num = {id(n): i + 1 for i, n in enumerate(env.nodes)}
+                    del sides[:]            # (they hold the node objects of before the load)
                 except Exception as e:  # noqa: BLE001
                     problems.append("saving and loading the IR raised %s" % exc_name(g, e))
                     break
@@ -178,6 +186,20 @@ def run_history(ctx, g, rng, length):
                     problems = ["after saving and loading the IR: " + p for p in problems]
                     break
                 continue
+        if rng.random() < 0.06 and len(sides) < 3:
+            # another CFG / another IR constructed FROM this CFG object: a set of its own from then on
+            how = rng.choice(["CFG(cfg)", "IR(cfg=cfg)", "set-then-CFG"])
+            try:
+                side = g.CFG(cfg) if how == "CFG(cfg)" else g.IR(cfg=cfg).cfg if how == "IR(cfg=cfg)" else g.CFG(set(cfg))
+            except Exception as e:  # noqa: BLE001
+                problems.append("%s raised %s" % (how, exc_name(g, e)))
+                break
+            sides.append(("a CFG built by %s" % how, side, sorted(env.canon_edge(e) for e in side)))
+            ctx.count("side_cfg:" + how)
+            if sides[-1][2] != sorted([k[0], k[1], json.loads(k[2])] for k in shadow):
+                problems.append("%s does not hold this CFG's edges" % how)
+                break
+            continue
         m = rng.choice(["add", "add", "add", "discard", "discard", "remove", "pop", "clear", "update", "ior", "iand", "isub", "ixor"])
         if m == "clear" and rng.random() < 0.7:
             m = "add"
